@@ -2546,7 +2546,10 @@ impl<Front: SocketHandler> ConnectionH2<Front> {
             }
             (H2State::ClientSettings, Position::Server) => {
                 let i = kawa.storage.data();
-                let settings = match parser::settings_frame(
+                // Go through `frame_body` (not `settings_frame` directly) so the
+                // client's first SETTINGS gets the same RFC 9113 §6.5 size checks
+                // as every later one (length must be a multiple of 6).
+                let settings = match parser::frame_body(
                     i,
                     &FrameHeader {
                         payload_len: i.len() as u32,
